@@ -62,6 +62,12 @@ def judge(site):
     k, d, key = site["class"], site["detail"], site["key"]
     if key in DEBUG_SITES:
         return True, "debug representation (Token.__str__): printed by dprint only"
+    if k == "FORMAT" and site.get("file") == "norminette/lexer/tokens.py" and \
+            str(site.get("function", "")).split(".")[-1] in ("__str__", "__repr__", "__format__"):
+        # however the token renders itself: shown by -d and inside the text of the fatal message
+        # only, which no statement quotes (a rule that parsed that text would read it through
+        # str() / repr(), not through .value, and the tokens module has no rule)
+        return True, "debug representation of the token (its own __str__ / __repr__)"
     if key in COMMENT_LITERAL_SITES:
         return True, COMMENT_LITERAL_SITES[key]
     if key in JUSTIFIED_IDENTIFIER_SITES:
